@@ -10,6 +10,7 @@ import (
 	"runtime/debug"
 	"strings"
 	"sync"
+	"syscall"
 	"time"
 )
 
@@ -36,11 +37,37 @@ type Job struct {
 // Handlers maps job kinds to their implementation inside the worker.
 var Handlers = map[string]func(payload string) string{}
 
+var capFile *os.File
+
+// CapturedBytes is the number of bytes the worker process has written to its
+// standard output and standard error so far (the protocol uses a duplicate of
+// the original stdout, so anything counted here was written by the code under test).
+func CapturedBytes() int64 {
+	if capFile == nil {
+		return 0
+	}
+	st, err := capFile.Stat()
+	if err != nil {
+		return 0
+	}
+	return st.Size()
+}
+
 // WorkerMain is the body of `check -worker`.
 func WorkerMain() {
 	debug.SetMaxStack(256 << 20)
 	in := bufio.NewReaderSize(os.Stdin, 1<<20)
-	out := bufio.NewWriter(os.Stdout)
+	proto := os.Stdout
+	if nfd, err := syscall.Dup(1); err == nil {
+		if f, err := os.CreateTemp("", "verif-capture-*"); err == nil {
+			os.Remove(f.Name())
+			if syscall.Dup2(int(f.Fd()), 1) == nil && syscall.Dup2(int(f.Fd()), 2) == nil {
+				proto = os.NewFile(uintptr(nfd), "proto")
+				capFile = f
+			}
+		}
+	}
+	out := bufio.NewWriter(proto)
 	for {
 		line, err := in.ReadString('\n')
 		if len(line) > 0 {
